@@ -396,10 +396,12 @@ impl Property for C12 {
             Segment::random("VFunc/VFilter", tier.pick(10_000, 60_000), &[5], 8, 40),
             Segment::random("misc", tier.pick(25_000, 120_000), &[6], 8, 60),
             Segment::random("Modulo2Equation/Modulo2System", tier.pick(100_000, 600_000), &[7], 8, 120),
+            // in-domain and out-of-domain select/rank on vectors above 2^32 bits (wrong answers are not judged here)
+            Segment::enumerated("huge(>2^32 bits) rank/select", tier.pick(6, 40), &[8]),
         ]
     }
     fn rule(&self) -> &'static str {
-        "case = op sequence over an explicit menu of SAFE public methods on generated structures (including empty and minimal ones) with arguments from the whole usize/string domain (len, len+-1, len+63/64, count+1, 2^32, 2^63, usize::MAX, random): BitVec/AtomicBitVec get/set/swap/Index/iter/iter_ones/iter_zeros/push/pop/resize/fill/flip/reset/to_owned/count; BitFieldVec<u8,u16,u64,u128> get/set/iter_from/into_iter_from/get_unaligned/addr_of/push/pop/resize/clear/copy/try_chunks_mut/from_slice/apply_in_place/reset; every rank/select stack of the C01/C02 menu: rank, rank_zero, select, select_zero far beyond the counts and Index out of range; Elias-Fano get/index_of/contains/succ/succ_strict/pred/pred_strict/iter_from/into_iter_from; rear-coded list get/get_in_place/iter_from/lend_from/into_iter_from/index_of/contains with probes that may contain NUL; VFunc::get and VFilter::contains/Index/get on never-inserted keys for every row of the builder table including functions over 0 and 1 keys; SliceSeq::get; Modulo2System::check with a wrong-length vector; Modulo2Equation::add on arbitrary pairs of sorted variable lists (disjoint, nested, equal, empty), Modulo2System push/gaussian_elimination/lazy_gaussian_elimination on generated systems including variables at or beyond num_vars. *_unchecked methods and the unaligned queries of functions/filters are never called. Oracle = process outcome only (a return value or an unwinding panic is fine; a worker death - std ub_checks abort, AddressSanitizer report, signal - is the violation). Non-trivial: at least one out-of-domain argument on a non-empty structure, or any call on an empty one; distinct = distinct hash of the case bytes."
+        "case = op sequence over an explicit menu of SAFE public methods on generated structures (including empty and minimal ones) with arguments from the whole usize/string domain (len, len+-1, len+63/64, count+1, 2^32, 2^63, usize::MAX, random): BitVec/AtomicBitVec get/set/swap/Index/iter/iter_ones/iter_zeros/push/pop/resize/fill/flip/reset/to_owned/count; BitFieldVec<u8,u16,u64,u128> get/set/iter_from/into_iter_from/get_unaligned/addr_of/push/pop/resize/clear/copy/try_chunks_mut/from_slice/apply_in_place/reset; every rank/select stack of the C01/C02 menu: rank, rank_zero, select, select_zero far beyond the counts and Index out of range; Elias-Fano get/index_of/contains/succ/succ_strict/pred/pred_strict/iter_from/into_iter_from; rear-coded list get/get_in_place/iter_from/lend_from/into_iter_from/index_of/contains with probes that may contain NUL; VFunc::get and VFilter::contains/Index/get on never-inserted keys for every row of the builder table including functions over 0 and 1 keys; SliceSeq::get; Modulo2System::check with a wrong-length vector; rank/select/select_zero of the selection structures on vectors above 2^32 bits (mixed span classes, sparse, dense); Modulo2Equation::add on arbitrary pairs of sorted variable lists (disjoint, nested, equal, empty), Modulo2System push/gaussian_elimination/lazy_gaussian_elimination on generated systems including variables at or beyond num_vars. *_unchecked methods and the unaligned queries of functions/filters are never called. Oracle = process outcome only (a return value or an unwinding panic is fine; a worker death - std ub_checks abort, AddressSanitizer report, signal - is the violation). Non-trivial: at least one out-of-domain argument on a non-empty structure, or any call on an empty one; distinct = distinct hash of the case bytes."
     }
     fn run(&self, data: &[u8], cx: &mut Ctx) -> R {
         let (mode, rest) = data.split_first().unwrap_or((&0, &[]));
@@ -423,6 +425,22 @@ impl Property for C12 {
                 let filter: bool = u.arbitrary().unwrap_or(false);
                 let style = u.int_in_range(0u8..=2).unwrap_or(0);
                 props_func::with_row!(row, |K, W, D, S, E| func_ops::<K, W, D, S, E>(cx, n, filter, style))
+            }
+            8 => {
+                let mut b = [0u8; 8];
+                b[..rest.len().min(8)].copy_from_slice(&rest[..rest.len().min(8)]);
+                let i = u64::from_le_bytes(b);
+                // mixed-span patterns first, then the other huge patterns
+                let j = if i % 2 == 0 { 2000 + i / 2 } else { i / 2 };
+                cx.label("len>2^32");
+                props_ranksel::huge::OUTCOME_ONLY.store(true, Ordering::Relaxed);
+                let r = if i % 4 == 3 { props_ranksel::huge::rank_case(cx, j) } else { props_ranksel::huge::select_case(cx, j) };
+                props_ranksel::huge::OUTCOME_ONLY.store(false, Ordering::Relaxed);
+                match r {
+                    // only the process outcome counts for this property
+                    Err(f) if f.class == Class::Mismatch || f.class == Class::Panic => Ok(()),
+                    other => other,
+                }
             }
             7 => mod2_ops(cx, &mut u),
             _ => misc_ops(cx, &mut u),
